@@ -349,6 +349,7 @@ class TlsConn:
         self.truth_records = []
         self.rec_index = []
         self.keylog = []
+        self.fin_plain = {}
         self.etm = bool(sp["etm"]) and suite.kind == "cbc" and version != SSL30
         self.pad13 = sp["pad13"]
         self.grouping = sp["grouping"]
@@ -416,6 +417,11 @@ class TlsConn:
         self.events.append((srv, rec, tag))
         self.rec_index.append(None)
 
+    def _fin(self, srv, n):
+        m = hs(20, rbytes(self.rnd, n))
+        self.fin_plain[srv] = m
+        return m
+
     def _legacy(self, sh, rv):
         rnd, v, s, sp = self.rnd, self.v, self.s, self.spec
         master = rbytes(rnd, 48)
@@ -435,9 +441,9 @@ class TlsConn:
             for t, m in _group(msgs, g):
                 self._plain(True, 0x16, m, rv, t)
             self._plain(True, 0x14, b"\x01", rv, "CCS")
-            self._enc(True, sw.protect(0x16, hs(20, rbytes(rnd, fin_len))), "FIN")
+            self._enc(True, sw.protect(0x16, self._fin(True, fin_len)), "FIN")
             self._plain(False, 0x14, b"\x01", rv, "CCS")
-            self._enc(False, cw.protect(0x16, hs(20, rbytes(rnd, fin_len))), "FIN")
+            self._enc(False, cw.protect(0x16, self._fin(False, fin_len)), "FIN")
         else:
             msgs = [("SH", sh)]
             if self.sh_mode == "none" and sp["after_sh"] is not None:
@@ -452,11 +458,11 @@ class TlsConn:
                 self._plain(True, 0x16, m, rv, t)
             self._plain(False, 0x16, hs(16, rbytes(rnd, 130)), rv, "CKE")
             self._plain(False, 0x14, b"\x01", rv, "CCS")
-            self._enc(False, cw.protect(0x16, hs(20, rbytes(rnd, fin_len))), "FIN")
+            self._enc(False, cw.protect(0x16, self._fin(False, fin_len)), "FIN")
             if sp["tickets"] and v != SSL30:
                 self._plain(True, 0x16, hs(4, rbytes(rnd, 40)), rv, "NST")
             self._plain(True, 0x14, b"\x01", rv, "CCS")
-            self._enc(True, sw.protect(0x16, hs(20, rbytes(rnd, fin_len))), "FIN")
+            self._enc(True, sw.protect(0x16, self._fin(True, fin_len)), "FIN")
 
     def _tls13(self, sh, rv):
         rnd, s, sp = self.rnd, self.s, self.spec
